@@ -171,7 +171,7 @@ SPEC = PropSpec(
     ],
     outside=["more than K segments per message (K = 6 quick / 12 thorough in Tier B)", "content of unpickling in Tier B", "zero-length bodies (send_msg never produces them)"],
     stubs=["vos.FakeSock"],
-    custom=None,
+    custom=custom,
     real_replay=real_replay,
     technique="CrossHair/z3 symbolic execution of recv_msg/send_msg over scripted sockets + AST-to-SMT encoding of recv_msg decided by z3 and cvc5",
 )
